@@ -99,9 +99,30 @@ def membership_atoms(M: Model, f, var: str | None):
         if e is None:
             continue
         m = M.node_membership(e)
-        if m is not None and (var is None or _is_var(m[0], var)):
+        tested = m[0] if m is not None else None
+        while isinstance(tested, ast.Call) and isinstance(tested.func, ast.Name) and tested.func.id == "str" and len(tested.args) == 1 and not tested.keywords:
+            tested = tested.args[0]  # str() of a name is the name
+        if m is not None and (var is None or _is_var(tested, var)):
             out[a] = m[2]
     return out
+
+
+def transformed_membership(M: Model, f, var: str):
+    """a membership test in the graph's nodes whose tested value is computed FROM the aliased name `var` but is not the name itself
+    (`flatten(var) in nodes`, `var.lower() in nodes`, `var.split('.')[0] in nodes`)  ->  (atom text, text of the tested value)"""
+    for a in atoms_of(f):
+        e = parse_atom(a)
+        m = M.node_membership(e) if e is not None else None
+        if m is None or m[2] != "all":
+            continue
+        tested = m[0]
+        while isinstance(tested, ast.Call) and isinstance(tested.func, ast.Name) and tested.func.id == "str" and len(tested.args) == 1 and not tested.keywords:
+            tested = tested.args[0]  # str() of a str is the same name
+        if _is_var(tested, var):
+            continue
+        if _mentions_var(tested, var):
+            return a, norm(m[0], 70)
+    return None
 
 
 def unknown_coll(M: Model, e: ast.expr):
@@ -119,6 +140,9 @@ def unknown_coll(M: Model, e: ast.expr):
         for a, kind in ms.items():
             if equivalent(f, f_not(atom(a))):
                 return ("ok", None) if kind == "all" else ("other", kind.split(":", 1)[-1])
+        tm = transformed_membership(M, f, var)
+        if tm is not None and equivalent(f, f_not(atom(tm[0]))):
+            return ("transformed", tm[1])
         return None
     if isinstance(e, ast.Call) and isinstance(e.func, ast.Name) and e.func.id == "filter" and len(e.args) == 2 and isinstance(e.args[0], ast.Lambda) and len(e.args[0].args.args) == 1:
         from core.guards import to_formula
@@ -296,6 +320,8 @@ def _analyse_raise(C, r: ast.Raise):
             if u is not None and isinstance(L.target, ast.Name):
                 f = M.guard(r, relative_to=L)
                 named = any(isinstance(x, ast.Name) and x.id == L.target.id for x in ast.walk(exc))
+                if u[0] == "transformed":
+                    return ("violation", L, r, f"the existence check looks up `{u[1]}` - a value computed from the aliased module's name, not the name itself - in the graph's nodes: a module that does not exist passes the check whenever its transformed name is a node", named)
                 if u[0] == "other" and M.G is not None and M.G in (u[1] or ""):
                     return ("unknown", L, r, f"`{u[1]}` is not recognised as the nodes of the drawn graph", named)
                 if u[0] == "other":
@@ -307,6 +333,14 @@ def _analyse_raise(C, r: ast.Raise):
         f = M.guard(r, relative_to=L)
         ms = membership_atoms(M, f, k)
         named = _mentions_var(exc, k)
+        tm = transformed_membership(M, f, k)
+        if tm is not None and not ms:
+            try:
+                decides = equivalent(f, f_not(atom(tm[0]))) or implies(f, f_not(atom(tm[0])))
+            except AnalysisError:
+                decides = False
+            if decides:
+                return ("violation", L, r, f"the existence check looks up `{tm[1]}` - a value computed from the aliased module's name, not the name itself - in the graph's nodes: a module that does not exist passes the check whenever its transformed name is a node", named)
         if not ms:
             if M.mentions_A(M.resolve(L.iter)):
                 return ("unknown", L, r, f"`{norm(r.exc, 60)}` is raised in a loop over the aliases under a condition that is not a membership test of the aliased module in the graph's nodes", named)
@@ -365,6 +399,8 @@ def _analyse_raise(C, r: ast.Raise):
     while p is not None and not isinstance(p, ast.If):
         p = parent(p)
     decision = p if p is not None else decision
+    if u[0] == "transformed":
+        return ("violation", decision, r, f"the existence check looks up `{u[1]}` - a value computed from the aliased module's name, not the name itself - in the graph's nodes: a module that does not exist passes the check whenever its transformed name is a node", named)
     if u[0] == "other" and M.G is not None and M.G in (u[1] or ""):
         return ("unknown", decision, r, f"`{u[1]}` is not recognised as the nodes of the drawn graph", named)
     if u[0] == "other":
